@@ -102,3 +102,70 @@ def oracle(c, ir):
 
 def same(c, ir, mr):
     return ir == mr
+
+
+# ---- cross-check of the extraction: the same cases evaluated inside Coq by vm_compute must give what the extracted
+# OCaml model printed (DESIGN 3.2: "the two evaluators must agree")
+def _coq_bytes(b):
+    return "[" + "; ".join(str(x) for x in b) + "]"
+
+
+def extra_checks(cases, impl, model, tier):
+    import os, re, subprocess, sys
+    sys.path.insert(0, os.path.dirname(os.path.dirname(os.path.abspath(__file__))))
+    import vlib
+    pick = [c for c in cases if c.cid in model and sum(len(a) for a in c.args) < 400][: (120 if tier == "quick" else 600)]
+    if not pick:
+        return []
+    d = os.path.join(vlib.CACHE, "xcheck")
+    os.makedirs(d, exist_ok=True)
+    lines = ["From Coq Require Import List NArith.", "From AnyTLS Require Import Bytes Cmd Generated Frame.", "Import ListNotations.", "Open Scope N_scope.",
+             "Definition showf (f : frame) : list N := [byte_of_cmd (fcmd f); fsid f; lenN (fdata f)] ++ fdata f.",
+             "Definition show_enc (o : option bytes) : list N := match o with Some e => 1 :: e | None => [0] end.",
+             "Fixpoint show_dec (carry : bytes) (chunks : list bytes) : list N := match chunks with [] => [] | c :: r => "
+             "let '(fs, carry') := feed carry c in flat_map (fun f => 777777 :: showf f) fs ++ [888888; lenN carry'] ++ show_dec carry' r end."]
+    for c in pick:
+        if c.drv == "enc":
+            cb, sid, data = int(c.args[0]), int(c.args[1]), unhx(c.args[2])
+            lines.append("Eval vm_compute in (show_enc (encode {| fcmd := cmd_of_byte %d; fsid := %d; fdata := %s |}))." % (cb, sid, _coq_bytes(data)))
+        else:
+            lines.append("Eval vm_compute in (show_dec [] [%s])." % "; ".join(_coq_bytes(unhx(a)) for a in c.args))
+    f = os.path.join(d, "c03_cases.v")
+    open(f, "w").write("\n".join(lines) + "\n")
+    args = []
+    for ln in open(os.path.join(vlib.COQ, "_CoqProject")):
+        ln = ln.strip()
+        if ln.startswith("-Q"):
+            _, pth, l = ln.split()
+            args += ["-Q", os.path.join(vlib.COQ, pth), l]
+    rc, out, err, _ = vlib.run(["coqc", "-noglob"] + args + [f], cwd=d, timeout=600)
+    if rc != 0:
+        return [{"kind": "extraction-crosscheck", "what": "coqc failed on the vm_compute case file: " + (err or out)[-300:]}]
+    blocks = re.findall(r"=\s*(\[.*?\])\s*:\s*list N", out, re.S)
+    if len(blocks) != len(pick):
+        return [{"kind": "extraction-crosscheck", "what": "expected %d vm_compute results, parsed %d" % (len(pick), len(blocks))}]
+    bad = []
+    for c, blk in zip(pick, blocks):
+        got = [int(x) for x in re.findall(r"\d+", blk)]
+        mr = model[c.cid]
+        if c.drv == "enc":
+            exp = [0] if mr == "ERR" else [1] + list(unhx(mr.split()[1]))
+        else:
+            exp = []
+            toks = mr.split()
+            i = 0
+            while i < len(toks):
+                if toks[i] == "F":
+                    data = unhx(toks[i + 3])
+                    exp += [777777, int(toks[i + 1]), int(toks[i + 2]), len(data)] + list(data)
+                    i += 4
+                elif toks[i] == "R":
+                    exp += [888888, int(toks[i + 1])]
+                    i += 2
+                else:
+                    i += 1
+        if got != exp:
+            bad.append(c.cid)
+    if bad:
+        return [{"kind": "extraction-crosscheck", "what": "vm_compute and the extracted OCaml model disagree on %d of %d cases, first %s" % (len(bad), len(pick), bad[0])}]
+    return []
